@@ -7,7 +7,7 @@
    (build, blocks), each tracked session itself starting with the real check and syncing
    nothing when refused) on a fresh database whose first block is base+1, the start-up of a
    build with sync version cur is refused by CheckHardForks.  An untracked build is recorded
-   by the code's back-fill as version -1; the table entry {0, -1} therefore admits it, which is
+   by the code's back-fill as version -1; the table entry {0, -1} therefore lets it pass, which is
    the conjunct [0 <= m] below.
 
    Hypotheses, all needed (witnesses in Refuted/C19.v):
